@@ -40,6 +40,7 @@ type HarnessSpec struct {
 	MaxSteps int               `json:"maxsteps"`
 	MaxPaths int               `json:"maxpaths"`
 	TimeoutMs int              `json:"timeout_ms"`
+	ResidentMs int             `json:"resident_timeout_ms"` // shorter timeout of the resident solver; its unknowns go to the one-shot portfolio
 	Replay   string            `json:"replay"` // "native" (default) or "trace"
 	Solver   string            `json:"solver"`
 	Goroutines   bool          `json:"goroutines"`
@@ -209,6 +210,7 @@ func checkMain(args []string) int {
 		cfg.MaxSteps = h.MaxSteps
 		cfg.MaxPaths = h.MaxPaths
 		cfg.QueryTimeoutMs = h.TimeoutMs
+		cfg.ResidentTimeoutMs = h.ResidentMs
 		if cfg.QueryTimeoutMs == 0 {
 			if *tier == "thorough" {
 				cfg.QueryTimeoutMs = 60000
